@@ -15,12 +15,29 @@ import traceback
 THROWAWAY = [False]
 
 
-def forked(fn, *args):
+class RunTimeout(Exception):
+    """The child did not finish within the wall limit (it was killed)."""
+
+
+# wall limit for one run in its child; far above any legitimate run (the longest take about 15 s on an idle machine)
+RUN_TIMEOUT_S = float(os.environ.get("VERIF_RUN_TIMEOUT_S", "240"))
+
+
+def forked(fn, *args, **kw):
+    import select
+    import signal
+    import time
+    timeout = float(kw.get("timeout") or RUN_TIMEOUT_S)
     r, w = os.pipe()
     pid = os.fork()
     if pid == 0:
         code = 0
         THROWAWAY[0] = True
+        try:
+            signal.signal(signal.SIGALRM, signal.SIG_DFL)
+            signal.alarm(int(timeout) + 10)        # never outlive the parent's patience, even as an orphan
+        except Exception:
+            pass
         try:
             os.close(r)
             try:
@@ -34,12 +51,38 @@ def forked(fn, *args):
             code = 1
         os._exit(code)
     os.close(w)
-    with os.fdopen(r, "rb") as f:
-        head = f.read(8)
-        data = b""
-        if len(head) == 8:
-            n = struct.unpack("<Q", head)[0]
-            data = f.read(n)
+    deadline = time.monotonic() + timeout
+    buf = b""
+    need = 8
+    data = b""
+    timed_out = False
+    try:
+        while True:
+            left = deadline - time.monotonic()
+            if left <= 0:
+                timed_out = True
+                break
+            ready, _, _ = select.select([r], [], [], min(left, 5.0))
+            if not ready:
+                continue
+            chunk = os.read(r, 1 << 20)
+            if not chunk:
+                break
+            buf += chunk
+            if need == 8 and len(buf) >= 8:
+                need = 8 + struct.unpack("<Q", buf[:8])[0]
+            if need > 8 and len(buf) >= need:
+                data = buf[8:need]
+                break
+    finally:
+        os.close(r)
+    if timed_out:
+        try:
+            os.kill(pid, signal.SIGKILL)
+        except Exception:
+            pass
+        os.waitpid(pid, 0)
+        raise RunTimeout("run exceeded the wall limit of %.0f s" % timeout)
     os.waitpid(pid, 0)
     if not data:
         raise RuntimeError("forked child died without a result")
